@@ -8,6 +8,7 @@ package app
 import (
 	"encoding/json"
 	"fmt"
+	"io"
 	"net/http"
 	"net/http/httptest"
 	"os"
@@ -451,11 +452,14 @@ type vfAPIOut struct {
 func vfC07IngestAPI(t *testing.T, r *rep.R) {
 	var puts int64
 	recv := httptest.NewServer(http.HandlerFunc(func(w http.ResponseWriter, req *http.Request) {
-		atomic.AddInt64(&puts, 1)
+		_, _ = io.Copy(io.Discard, req.Body)
+		if atomic.AddInt64(&puts, 1)%3 == 0 {
+			time.Sleep(400 * time.Microsecond) // some requests stay in flight for a while
+		}
 		w.WriteHeader(200)
 	}))
 	defer recv.Close()
-	rounds := r.Pick(6, 60)
+	rounds := r.Pick(6, 240)
 	for round := 0; round < rounds; round++ {
 		s := vfBundledServer(t)
 		var mu sync.Mutex
@@ -490,7 +494,7 @@ func vfC07IngestAPI(t *testing.T, r *rep.R) {
 				return vfAPIOut{id, resp.Code}
 			})
 		}
-		G := 3 + round%4
+		G := 3 + round%6
 		var wg sync.WaitGroup
 		gate := make(chan struct{})
 		for g := 0; g < G; g++ {
@@ -507,17 +511,40 @@ func vfC07IngestAPI(t *testing.T, r *rep.R) {
 					}
 					probe := 1 + rng.Intn(2*G+2)
 					simple(g, "info", "GET", fmt.Sprintf("/api/cmaf-ingests/%d", probe), probe)
+					if g%2 == 1 {
+						// churn: a session deleted right after its creation, i.e. cancelled while it uploads its init segments
+						// to the receiver the other sessions use as well
+						if id2 := create(g); id2 > 0 {
+							simple(g, "delete", "DELETE", fmt.Sprintf("/api/cmaf-ingests/%d", id2), id2)
+						}
+					}
 				}
 				for _, id := range mine {
 					// steps only on own live sessions (a step on a finished session never returns – judged under C08/C16)
 					if rng.Intn(2) == 0 {
 						resp := vfDo(s, "GET", fmt.Sprintf("/api/cmaf-ingests/%d/step", id), nil, nil)
 						if resp.Code != 200 {
-							// a session that ended because an upload to the receiver failed is not live any more: its report says so
+							// why is the session not live? its report tells: a request of this session was cancelled although nobody has deleted
+							// the session (a violation: another session's cancellation leaked into it), or the transport to the receiver failed
+							// (inconclusive: a problem of the test machine, not of the sender)
 							info := vfDo(s, "GET", fmt.Sprintf("/api/cmaf-ingests/%d", id), nil, nil)
-							if resp.Code == 410 && (strings.Contains(string(info.Body), "rror") || strings.Contains(string(info.Body), "ailed")) {
+							var hist []string
+							deleted := false
+							mu.Lock()
+							for _, o := range ops {
+								if o.Input.(vfAPIIn).id == id || o.Output.(vfAPIOut).id == id {
+									hist = append(hist, fmt.Sprintf("c%d [%d,%d] %s(%d)->%d/%d", o.ClientId, o.Call, o.Return, o.Input.(vfAPIIn).op, o.Input.(vfAPIIn).id, o.Output.(vfAPIOut).code, o.Output.(vfAPIOut).id))
+									deleted = deleted || o.Input.(vfAPIIn).op == "delete"
+								}
+							}
+							mu.Unlock()
+							switch {
+							case resp.Code == 410 && !deleted && strings.Contains(string(info.Body), "context canceled"):
+								r.Violation("ingest-api:session-cancelled-although-never-deleted", map[string]any{"id": id, "client": g, "operations_on_this_id": hist, "session_info": vfTrunc(info.Body, 600)})
+							case resp.Code == 410 && (strings.Contains(string(info.Body), "rror") || strings.Contains(string(info.Body), "ailed")):
 								r.Inconclusive("ingest-api:session-ended-by-upload-error")
-							} else {
+								r.Sample(map[string]any{"kind": "ingest session that ended by an upload error", "session_info": vfTrunc(info.Body, 600)})
+							default:
 								r.Violation("ingest-api:step-on-own-session-status", map[string]any{"id": id, "status": resp.Code, "session_info": vfTrunc(info.Body, 600)})
 							}
 						}
